@@ -136,10 +136,12 @@ func oracleC08(f *sessionFam, w *World, res *Result) []Violation {
 			}
 		}
 		// a failed candidate never costs the session
-		if len(sp.Cand) > 0 && len(sp.Faults) == 0 && sp.StopAtMs == 0 && sp.CloseAtMs == 0 && f.sc.FaultFree {
+		// (the flag and tick rules hold in every fault class - they look at a session that is open at the end and had no
+		// other candidate; what closes a session, and whether a retry gets through, is judged in fault-free runs only)
+		if len(sp.Cand) > 0 && len(sp.Faults) == 0 && sp.StopAtMs == 0 && sp.CloseAtMs == 0 && !impatientSpec(sp) {
 			switched := len(w.evs(a, "c-upgraded")) > 0
 			if !switched {
-				if closed && closeEv[0].T < f.endAt {
+				if closed && closeEv[0].T < f.endAt && f.sc.FaultFree {
 					l.add("failed-candidate-keeps-session", closeEv[0].S, fmt.Sprintf("%s [%s]: a misbehaving candidate (%s) cost the session: closed with %q", a, ctx, candScript(sp.Cand), closeEv[0].S))
 				}
 				// (the harness itself closes every connection after the end snapshot: only a close before it counts)
@@ -182,7 +184,7 @@ func oracleC08(f *sessionFam, w *World, res *Result) []Violation {
 					if strings.Contains(flagsOf(st), "U") && len(starts) > 0 && f.endAt-starts[0].T > ut+200*time.Millisecond {
 						l.add("not-upgrading-after-timeout", "", fmt.Sprintf("%s [%s]: candidate opened at %v, upgrade timeout %v, but the session is still marked upgrading at %v", a, ctx, starts[0].T, ut, f.endAt))
 					}
-					if sp.Retry && f.endAt-time.Duration(sp.RetryAtMs)*time.Millisecond > 500*time.Millisecond {
+					if sp.Retry && f.sc.FaultFree && f.endAt-time.Duration(sp.RetryAtMs)*time.Millisecond > 500*time.Millisecond {
 						if len(w.evs(a, "c-probe-start")) >= 2 && len(w.evs(a, "c-upgraded")) == 0 {
 							// the retry started but never completed
 							rs := w.evs(a, "c-probe-start")
